@@ -139,10 +139,19 @@ type lookupStream struct {
 	ctx  context.Context
 	mtx  sync.Mutex
 	sent []string
+	gate chan struct{} // when non-nil every Send waits for one token (a slow consumer)
 }
 
 func (s *lookupStream) Context() context.Context { return s.ctx }
 func (s *lookupStream) Send(m *bifrost_rpc_access.LookupRpcServiceResponse) error {
+	if s.gate != nil {
+		select {
+		case <-s.gate:
+		case <-s.ctx.Done():
+			return context.Canceled
+		}
+	}
+	// the message is read when the consumer takes it, as a real transport would marshal it
 	s.mtx.Lock()
 	s.sent = append(s.sent, bit(m.GetIdle())+bit(m.GetExists())+bit(m.GetRemoved()))
 	s.mtx.Unlock()
@@ -223,11 +232,21 @@ func evList(l []string) string {
 
 // scriptedHistory plays callbacks directly into the server (tapBus without an inner bus).
 func (e *engine) scriptedHistory(evs []string) (sent []string, ret string) {
+	return e.scriptedHistorySlow(evs, nil)
+}
+
+// scriptedHistorySlow: tokens[i] = how many Send calls the consumer completes after event i
+// (nil = a fast consumer). The sender is therefore parked in Send, holding a batch it took from
+// the queue, while later callbacks append to the queue.
+func (e *engine) scriptedHistorySlow(evs []string, tokens []int) (sent []string, ret string) {
 	t := &tapBus{ready: make(chan struct{}, 1)}
 	srv := bifrost_rpc_access.NewAccessRpcServiceServer(t, false, nil)
 	sctx, cancel := context.WithCancel(e.ctx)
 	defer cancel()
 	strm := &lookupStream{ctx: sctx}
+	if tokens != nil {
+		strm.gate = make(chan struct{}, 4096)
+	}
 	done := make(chan error, 1)
 	go func() {
 		done <- srv.LookupRpcService(&bifrost_rpc_access.LookupRpcServiceRequest{ServiceId: "svc", ServerId: "srv"}, strm)
@@ -237,7 +256,7 @@ func (e *engine) scriptedHistory(evs []string) (sent []string, ret string) {
 	case <-time.After(10 * time.Second):
 		return nil, "timeout-start"
 	}
-	for _, ev := range evs {
+	for i, ev := range evs {
 		var id uint32
 		fmt.Sscanf(ev[1:], "%d", &id)
 		switch ev[0] {
@@ -250,8 +269,19 @@ func (e *engine) scriptedHistory(evs []string) (sent []string, ret string) {
 		case 'i':
 			t.deliverIdle(ev == "i1", nil)
 		}
+		if tokens != nil {
+			for k := 0; k < tokens[i]; k++ {
+				strm.gate <- struct{}{}
+			}
+			time.Sleep(time.Duration(20+e.rng.Intn(60)) * time.Microsecond) // let the sender run
+		}
 	}
 	t.dispose()
+	if tokens != nil {
+		for k := 0; k < 2*len(evs)+4; k++ { // the consumer catches up
+			strm.gate <- struct{}{}
+		}
+	}
 	select {
 	case err := <-done:
 		ret = "returned"
@@ -397,8 +427,8 @@ func (e *engine) c36Compare(evs, sent []string, ret, branch string, wellFormed b
 }
 
 func (e *engine) runC36() {
-	e.rep.Rule = "LookupRpcService driven (a) by scripted bus callbacks: every history of length ≤ 4 over {add 1, add 2, remove 1, remove 2, idle, busy} plus random histories up to length 14 incl. foreign values, duplicate IDs and removals of unknown IDs; (b) on the real controller bus with a scripted resolver (add / remove / MarkIdle), the tap recording the callbacks the bus delivers; the stream is compared message by message with the model run on the delivered history; component IDs: requests over {\"\",a,svc/x, 200-byte, non-UTF-8} round-tripped and random / mutated base58 text decoded; distinct = distinct op line"
-	e.rep.Require("scripted.exhaustive", "scripted.random", "scripted.illformed", "bus", "cid.roundtrip", "cid.empty", "cid.decode.ok", "cid.decode.err")
+	e.rep.Rule = "LookupRpcService driven (a) by scripted bus callbacks: every history of length ≤ 4 over {add 1, add 2, remove 1, remove 2, idle, busy} plus random histories up to length 14 incl. foreign values, duplicate IDs and removals of unknown IDs, and add/remove/idle alternations against a slow consumer (Send gated by tokens, so the sender holds a batch while callbacks keep queueing); (b) on the real controller bus with a scripted resolver (add / remove / MarkIdle), the tap recording the callbacks the bus delivers; the stream is compared message by message with the model run on the delivered history; component IDs: requests over {\"\",a,svc/x, 200-byte, non-UTF-8} round-tripped and random / mutated base58 text decoded; distinct = distinct op line"
+	e.rep.Require("scripted.exhaustive", "scripted.random", "scripted.illformed", "scripted.slow-consumer", "bus", "cid.roundtrip", "cid.empty", "cid.decode.ok", "cid.decode.err")
 	// (a) exhaustive short histories: well-formed ones get the monitor
 	alpha := []string{"a1", "a2", "r1", "r2", "i1", "i0"}
 	var gen func(prefix []string, n int)
@@ -480,6 +510,30 @@ func (e *engine) runC36() {
 			br = "scripted.illformed"
 		}
 		e.c36Compare(evs, sent, ret, br, wf)
+	}
+	// slow consumer: the sender is parked in Send with a batch in hand while the history goes on.
+	// Histories alternate add/remove of one value with idle toggles so that every event queues
+	// a response; the consumer takes 0..2 messages between events.
+	for i := 0; i < 150*e.a.Scale; i++ {
+		n := 6 + e.rng.Intn(10)
+		var evs []string
+		var toks []int
+		up, idle := false, false
+		for k := 0; k < n; k++ {
+			if e.rng.Intn(4) == 0 {
+				idle = !idle
+				evs = append(evs, "i"+bit(idle))
+			} else if up {
+				evs = append(evs, "r1")
+				up = false
+			} else {
+				evs = append(evs, "a1")
+				up = true
+			}
+			toks = append(toks, []int{0, 0, 0, 1, 1, 2}[e.rng.Intn(6)])
+		}
+		sent, ret := e.scriptedHistorySlow(evs, toks)
+		e.c36Compare(evs, sent, ret, "scripted.slow-consumer", true)
 	}
 	// (b) the real bus
 	for i := 0; i < 40*e.a.Scale; i++ {
